@@ -115,3 +115,24 @@ fn c15_long_jump() {
     kani::cover!(v.len() == 3, "COVER:long");
     kani::cover!(true, "COVER:end");
 }
+
+// ---- function contracts (T3 splices the requires/ensures onto the real functions) ---------------
+// proved here function by function; used instead of the bodies by `c15_abs_modular`
+
+#[kani::proof_for_contract(emit_movz_from_address)]
+#[kani::unwind(66)]
+fn contract_emit_movz_from_address() {
+    let _ = emit_movz_from_address(kani::any(), kani::any(), kani::any(), kani::any(), kani::any());
+}
+
+#[kani::proof_for_contract(emit_movk_from_address)]
+#[kani::unwind(66)]
+fn contract_emit_movk_from_address() {
+    let _ = emit_movk_from_address(kani::any(), kani::any(), kani::any(), kani::any(), kani::any());
+}
+
+#[kani::proof_for_contract(emit_br)]
+#[kani::unwind(34)]
+fn contract_emit_br() {
+    let _ = emit_br(kani::any());
+}
